@@ -33,6 +33,7 @@ struct Cfg {
 }
 
 struct Pool {
+    tied_files: Vec<String>,
     addrs: Vec<Multiaddr>,
     well_formed: usize,
     files: Vec<String>,
@@ -63,7 +64,7 @@ fn pool() -> Pool {
     // prepared files: built with the real store, then aged by rewriting the timestamps
     let dir = mc_core::scratch_root().join("c18-prep");
     std::fs::create_dir_all(&dir).unwrap();
-    let mk = |name: &str, items: &[(usize, u32, u32)], age_days: u64| -> String {
+    let mk = |name: &str, items: &[(usize, u32, u32)], age_days: u64, tied: bool| -> String {
         let path = dir.join(name);
         let cfg = BootstrapCacheConfig::empty().with_cache_path(&path);
         let mut st = BootstrapCacheStore::new(cfg).unwrap();
@@ -81,34 +82,52 @@ fn pool() -> Pool {
         // move every last_seen into the past
         let mut v: serde_json::Value = serde_json::from_str(&text).unwrap();
         // every entry gets its own age, 30 s apart (and `age_days` on top), so that "oldest" is unambiguous
-        fn age(v: &mut serde_json::Value, by: u64, n: &mut u64) {
+        fn age(v: &mut serde_json::Value, by: u64, n: &mut u64, tied: Option<u64>) {
             match v {
                 serde_json::Value::Object(m) => {
                     if let Some(ls) = m.get_mut("last_seen") {
                         if let Some(s) = ls.get_mut("secs_since_epoch") {
                             let cur = s.as_u64().unwrap_or(0);
                             *n += 1;
-                            *s = json!(cur.saturating_sub(by + 30 * *n));
+                            *s = match tied {
+                                // a file written in one go / by a coarse clock: every entry carries the same instant
+                                Some(t) => json!(t),
+                                None => json!(cur.saturating_sub(by + 30 * *n)),
+                            };
+                        }
+                        if tied.is_some() {
+                            if let Some(ns) = ls.get_mut("nanos_since_epoch") {
+                                *ns = json!(0);
+                            }
                         }
                     }
                     for (_, x) in m.iter_mut() {
-                        age(x, by, n);
+                        age(x, by, n, tied);
                     }
                 }
-                serde_json::Value::Array(a) => a.iter_mut().for_each(|x| age(x, by, n)),
+                serde_json::Value::Array(a) => a.iter_mut().for_each(|x| age(x, by, n, tied)),
                 _ => {}
             }
         }
         let mut n = 0;
-        age(&mut v, age_days * 86400, &mut n);
+        let tie_at = SystemTime::now().duration_since(SystemTime::UNIX_EPOCH).unwrap().as_secs().saturating_sub(age_days * 86400 + 60);
+        age(&mut v, age_days * 86400, &mut n, if tied { Some(tie_at) } else { None });
         serde_json::to_string_pretty(&v).unwrap()
     };
     let files = vec![
-        mk("f0.json", &[(0, 2, 0), (3, 1, 0)], 0),              // fresh, reliable: p1 a0, p2 a3
-        mk("f1.json", &[(1, 1, 0), (2, 1, 2), (5, 3, 1)], 0),   // fresh: p1 a1 reliable, p1 a2 unreliable (1 ok, 2 fail), p2 a5 reliable
-        mk("f2.json", &[(0, 5, 0), (4, 1, 0)], 2),              // two days old
+        mk("f0.json", &[(0, 2, 0), (3, 1, 0)], 0, false),              // fresh, reliable: p1 a0, p2 a3
+        mk("f1.json", &[(1, 1, 0), (2, 1, 2), (5, 3, 1)], 0, false),   // fresh: p1 a1 reliable, p1 a2 unreliable (1 ok, 2 fail), p2 a5 reliable
+        mk("f2.json", &[(0, 5, 0), (4, 1, 0)], 2, false),       // two days old
     ];
-    Pool { addrs, well_formed, files }
+    // files whose entries all carry exactly the same last_seen (written in one go / coarse clock / hand-made): which of
+    // the tied peers survives a trim depends on HashMap order, so these are kept out of the state search (replays must
+    // be deterministic) and get their own order-independent sweep
+    let tied_files = vec![
+        mk("t0.json", &[(1, 1, 0), (4, 1, 0)], 0, true),                        // p1 a1, p2 a4
+        mk("t1.json", &[(0, 1, 0), (1, 2, 0), (3, 1, 0), (4, 1, 0)], 0, true),  // p1 a0 a1, p2 a3 a4
+        mk("t2.json", &[(0, 1, 0), (3, 1, 0)], 2, true),                        // two days old, tied
+    ];
+    Pool { addrs, well_formed, files, tied_files }
 }
 
 pub struct Sys {
@@ -440,6 +459,65 @@ fn corrupt_files(run: &Run, pool: &Pool) {
     let _ = std::fs::remove_file(&path);
 }
 
+/// Cache files whose entries are tied in age: limits and cleanliness must hold whichever of the tied peers is dropped.
+fn tied_files(run: &Run, pool: &Pool) {
+    let path = mc_core::scratch_root().join("c18-tied.json");
+    let mut n = 0u64;
+    for (fi, content) in pool.tied_files.iter().enumerate() {
+        for max_peers in [1usize, 2, 3] {
+            for max_addrs in [1usize, 2] {
+                for expiry in [Duration::from_secs(86400), Duration::from_secs(7 * 86400)] {
+                    for op in ["load", "flush-with-cleanup", "add-then-flush-with-cleanup", "flush-without-cleanup-then-load"] {
+                        let desc = json!({"engine": "tied-files", "file": fi, "max_peers": max_peers, "max_addrs": max_addrs, "expiry_s": expiry.as_secs(), "op": op});
+                        run.case(desc.to_string().as_bytes(), true);
+                        n += 1;
+                        std::fs::write(&path, content).unwrap();
+                        let cfg = BootstrapCacheConfig::empty().with_cache_path(&path).with_max_peers(max_peers).with_addrs_per_peer(max_addrs).with_addr_expiry_duration(expiry);
+                        let r = catch(|| {
+                            let mut st = BootstrapCacheStore::new(cfg.clone()).expect("store");
+                            match op {
+                                "load" => {}
+                                "flush-with-cleanup" => drop(st.sync_and_flush_to_disk(true)),
+                                "add-then-flush-with-cleanup" => {
+                                    st.add_addr(pool.addrs[5].clone());
+                                    drop(st.sync_and_flush_to_disk(true));
+                                }
+                                _ => drop(st.sync_and_flush_to_disk(false)),
+                            }
+                            BootstrapCacheStore::load_cache_data(&cfg).map(|d| (d.peers.len(), d.peers.values().map(|a| a.0.len()).max().unwrap_or(0)))
+                        });
+                        match r {
+                            Err(p) => run.violation("no-panic", "tied-file", format!("{desc}: {p}"), desc),
+                            Ok(Err(e)) => run.violation("saved-file-loads", "tied-file", format!("{desc}: {e:?}"), desc),
+                            Ok(Ok((peers, addrs))) => {
+                                if peers > max_peers {
+                                    run.violation("bounded", "loaded-peers-tied", format!("a cache whose peers are equally old loads with {peers} peers, limit {max_peers} ({desc})"), desc.clone());
+                                }
+                                if addrs > max_addrs {
+                                    run.violation("bounded", "loaded-addrs-per-peer-tied", format!("a cache whose entries are equally old loads with {addrs} addresses for one peer, limit {max_addrs} ({desc})"), desc.clone());
+                                }
+                                // the raw file after a flush with clean-up
+                                if op.contains("with-cleanup") {
+                                    let raw = read_raw(&path);
+                                    let mut per_peer: BTreeMap<&str, usize> = BTreeMap::new();
+                                    for e in &raw {
+                                        *per_peer.entry(e.0.as_str()).or_default() += 1;
+                                    }
+                                    if per_peer.len() > max_peers || per_peer.values().any(|c| *c > max_addrs) {
+                                        run.violation("bounded", "file-tied", format!("the file written by a flush with clean-up over equally old entries holds {} peers (limit {max_peers}) with up to {} addresses (limit {max_addrs}) ({desc})", per_peer.len(), per_peer.values().max().unwrap_or(&0)), desc.clone());
+                                    }
+                                }
+                            }
+                        }
+                    }
+                }
+            }
+        }
+    }
+    run.extra("tied_files", json!({"cases": n}));
+    let _ = std::fs::remove_file(&path);
+}
+
 pub fn main(tier: Option<&str>) {
     let run = Run::new("C18", "model_checking", tier);
     run.rule(
@@ -447,7 +525,8 @@ pub fn main(tier: Option<&str>) {
          update_addr_status(ok|fail), remove_addr, perform_cleanup, sync_and_flush_to_disk(with|without clean-up) against the current file or \
          one of 3 prepared files (fresh reliable, fresh with an unreliable address, two days old); depth 4(5); 8 configurations \
          (max_peers 1|2 x max_addrs 1|2 x expiry 0|1 day); state key = memory and file entries with last_seen reduced to rank + expired flag. \
-         (F2) every truncation and every 3rd(every) byte substituted by 5 boundary bytes in a valid file, 7 foreign shapes.",
+         (F2) every truncation and every 3rd(every) byte substituted by 5 boundary bytes in a valid file, 7 foreign shapes. \
+         (T) 3 cache files whose entries all carry the same last_seen x max_peers 1|2|3 x max_addrs 1|2 x 2 expiries x {load, flush with clean-up, add then flush, flush without clean-up then load}: limits only.",
     );
     run.assume("which of several equally old peers clean-up drops depends on HashMap order: not judged (only counts and cleanliness are)");
     run.assume("last_seen values enter the state key as ranks plus an expired flag: the code only compares them with each other and with now - expiry");
@@ -468,6 +547,7 @@ pub fn main(tier: Option<&str>) {
         }
     }
     corrupt_files(&run, &pool);
+    tied_files(&run, &pool);
     crate::c18fs::run_fs_interleavings(&run);
     run.finish();
 }
